@@ -13,9 +13,9 @@ Rec == Trace[l]
 IsIdent == l <= Len(Trace) /\ Rec.role # "file"
 IsFile == l <= Len(Trace) /\ Rec.role = "file"
 \* the types-based resolver assigns exactly the expected path
-TypesExact == IsIdent => Rec.types = ExpectedPath(Rec.role, Rec.objPath, Rec.local)
+TypesExact == IsIdent => Rec.types = ExpectedPath(Rec.role, Rec.objPath, Rec.local, Rec.rl)
 \* where the syntax-based resolver applies it agrees
-AstAgrees == (IsIdent /\ Rec.ast # "<n/a>") => Rec.ast = Rec.types
+AstAgrees == (IsIdent /\ Rec.ast # "<n/a>" /\ ~Rec.rl) => Rec.ast = Rec.types
 \* it refuses exactly dot-imports and duplicate names
 RefusesWhenUndecidable == IsFile => (Rec.refused <=> GoastTable(Rec.specs).err)
 Accepted == TLCGet("stats").diameter = Len(Trace) + 1
